@@ -3,7 +3,8 @@
 //! functions: EGraph::union apply_rewrites
 //! also-with-features: checks
 //! Bound: `EGraph::union`: 600 (deep: 6000) pseudo-random histories of 6 insertions (terms of depth ≤ 2 over
-//! var, mul/2, f3/3, f4/4, g/1, lam, 5 slot names) and 8 unions between the inserted terms, plus 16 hand-written histories
+//! var, mul/2, f3/3, f4/4, g/1, lam, letrev, pin, nest, the 5 numeric slot names $0..$4; nodes violating the crate's
+//! per-node rule 'a bound name is not free in the same node' are not generated) and 8 unions between the inserted terms, plus 16 hand-written histories
 //! (symmetry then redundancy, a class equated with a term that contains it, redundancy under a binder);
 //! `apply_rewrites`: 13 terms × 12 rule sets × 3 rounds and 5 terms × 10 one-rule-per-round sequences (native substitution,
 //! let-introduction, rules under binders, after a redundancy or symmetry was established).  After EVERY operation: the built-in `EGraph::check`, every
@@ -19,6 +20,10 @@ define_language! {
         Lam(Bind<AppliedId>) = "lam",
         App(AppliedId, AppliedId) = "app",
         Let(Bind<AppliedId>, AppliedId) = "let",
+        // binders that are not the first slot-carrying component of their node
+        LetRev(AppliedId, Bind<AppliedId>) = "letrev",
+        Pin(Slot, Bind<AppliedId>) = "pin",
+        Nest(Bind<Bind<AppliedId>>) = "nest",
         Mul(AppliedId, AppliedId) = "mul",
         F3(AppliedId, AppliedId, AppliedId) = "f3",
         F4(AppliedId, AppliedId, AppliedId, AppliedId) = "f4",
@@ -34,15 +39,51 @@ impl Rng {
     fn next(&mut self, n: u64) -> u64 { self.0 ^= self.0 << 13; self.0 ^= self.0 >> 7; self.0 ^= self.0 << 17; self.0 % n }
 }
 
+fn free_hl(t: &RecExpr<HL>, env: &mut Vec<Slot>, out: &mut Vec<Slot>) {
+    let mut under = |bs: &[Slot], c: &RecExpr<HL>, env: &mut Vec<Slot>, out: &mut Vec<Slot>| { for b in bs { env.push(*b); } free_hl(c, env, out); for _ in bs { env.pop(); } };
+    match &t.node {
+        HL::Var(s) => if !env.contains(s) && !out.contains(s) { out.push(*s); },
+        HL::Lam(b) => under(&[b.slot], &t.children[0], env, out),
+        HL::Let(b, _) => { under(&[b.slot], &t.children[0], env, out); free_hl(&t.children[1], env, out); }
+        HL::LetRev(_, b) => { free_hl(&t.children[0], env, out); under(&[b.slot], &t.children[1], env, out); }
+        HL::Pin(s, b) => { if !env.contains(s) && !out.contains(s) { out.push(*s); } under(&[b.slot], &t.children[0], env, out); }
+        HL::Nest(b) => under(&[b.slot, b.elem.slot], &t.children[0], env, out),
+        _ => for c in &t.children { free_hl(c, env, out); },
+    }
+}
+/// the crate's per-node rule (Language::check): a name bound by a node does not occur free in the same node outside the binder's scope
+fn well_formed_hl(t: &RecExpr<HL>) -> bool {
+    let fv = |c: &RecExpr<HL>| { let mut o = Vec::new(); free_hl(c, &mut Vec::new(), &mut o); o };
+    let ok = match &t.node {
+        HL::Let(b, _) => !fv(&t.children[1]).contains(&b.slot),
+        HL::LetRev(_, b) => !fv(&t.children[0]).contains(&b.slot),
+        HL::Pin(s, b) => *s != b.slot,
+        HL::Nest(b) => b.slot != b.elem.slot,
+        _ => true,
+    };
+    ok && t.children.iter().all(well_formed_hl)
+}
 fn term(r: &mut Rng, depth: u32) -> String {
-    let v = |r: &mut Rng| format!("(var ${})", 1 + r.next(5));
+    for _ in 0..8 { let t = term_raw(r, depth); if well_formed_hl(&RecExpr::<HL>::parse(&t).unwrap()) { return t; } }
+    "(var $1)".to_string()
+}
+fn term_raw(r: &mut Rng, depth: u32) -> String {
+    let term = term_raw;
+    // $0..$4 are numeric names; shapes number their slots $0, $1, ..
+    let v = |r: &mut Rng| format!("(var ${})", r.next(5));
     if depth == 0 { return v(r); }
+    match r.next(10) {
+        7 => return format!("(letrev {} ${} {})", term(r, depth - 1), r.next(5), term(r, depth - 1)),
+        8 => return format!("(pin ${} ${} {})", r.next(5), r.next(5), term(r, depth - 1)),
+        9 => return format!("(nest ${} ${} {})", r.next(5), r.next(5), term(r, depth - 1)),
+        _ => {}
+    }
     match r.next(7) {
         0 => format!("(mul {} {})", term(r, depth - 1), term(r, depth - 1)),
         1 => format!("(f3 {} {} {})", v(r), v(r), v(r)),
         2 => format!("(f4 {} {} {} {})", v(r), v(r), v(r), v(r)),
         3 => format!("(g {})", term(r, depth - 1)),
-        4 => format!("(lam ${} {})", 1 + r.next(5), term(r, depth - 1)),
+        4 => format!("(lam ${} {})", r.next(5), term(r, depth - 1)),
         5 => "zero".to_string(),
         _ => v(r),
     }
